@@ -80,6 +80,35 @@ def gen_scenario(rng, ver=None, nacc=None, nops=None, twins=False, dao_bias=0.25
     return {"ver": ver, "bpcount": 3, "start": 1, "accounts": accounts, "ops": ops}
 
 
+def exhaustive_family(length=3):
+    """thorough tier: after a fixed prefix (two stakers who voted, lock periods over) every
+    sequence of `length` operations over a 9-letter alphabet (partial/full unstakes that shrink
+    votes, re-votes with overlapping candidate sets, re-stake, parameter vote, short and long
+    block steps)"""
+    import itertools
+    c = lambda i: cand(i).hex()
+    prefix = [{"op": "stake", "who": 0, "amt": str(2 * S)}, {"op": "stake", "who": 1, "amt": str(S)}, {"op": "block", "no": 2},
+              {"op": "votebp", "who": 0, "cands": [c(1), c(2)]}, {"op": "votebp", "who": 1, "cands": [c(2)]},
+              {"op": "block", "no": 2 + DELAY}]
+    alphabet = [{"op": "unstake", "who": 0, "amt": str(S)}, {"op": "unstake", "who": 0, "amt": str(2 * S)},
+                {"op": "unstake", "who": 1, "amt": str(S)}, {"op": "votebp", "who": 0, "cands": [c(3)]},
+                {"op": "votebp", "who": 1, "cands": [c(1), c(2)]}, {"op": "stake", "who": 0, "amt": str(S)},
+                {"op": "votedao", "who": 0, "id": "BPCOUNT", "val": ["13"]}, {"op": "block", "step": 1}, {"op": "block", "step": DELAY}]
+    out = []
+    for seq in itertools.product(alphabet, repeat=length):
+        no = 2 + DELAY
+        ops = [dict(o) for o in prefix]
+        for o in seq:
+            o = dict(o)
+            if o["op"] == "block":
+                no += o.pop("step")
+                o["no"] = no
+            ops.append(o)
+        ops.append({"op": "block", "no": no + 1})
+        out.append({"ver": 2, "bpcount": 3, "start": 1, "accounts": [{"addr": addr(i).hex(), "bal": str(5 * S)} for i in range(2)], "ops": ops})
+    return out
+
+
 # ----------------------------------------------------------------------------- Coq emitter
 def cz(n):
     """Z literal; large values in hexadecimal (decimal number notations are quadratic)"""
